@@ -313,9 +313,9 @@ def r06c(ck, prog):
 def run(ck, progs):
     describe(ck)
     for cfg, prog in progs.items():
-        r06a(ck, prog)
-        r06b(ck, prog)
-        r06c(ck, prog)
+        ck.attempt(r06a, ck, prog)
+        ck.attempt(r06b, ck, prog)
+        ck.attempt(r06c, ck, prog)
     return ("Lexical contract between readers and writers computed from the string literals and character constants in "
             "detect_alignment_format / read_* and in the functions reachable from each writer; bound of every store and "
             "copy into msa_seq.name; classification of every bounded string comparison in the library.")
